@@ -42,6 +42,12 @@ def fresh(name, sort='int'):
     raise Unsupported(f'fresh sort {sort}')
 
 
+# Reader states for lazily evaluated element functions: while a goal (or a later statement) reads
+# element i of a mapped sequence, the facts and obligations produced for that element go to the
+# state on top of this stack.
+SINK = []
+
+
 def mask_key(m):
     """Identity of a boolean mask *and* of its current contents (a store is re-keyed by writes)."""
     st = getattr(m, 'store', None)
@@ -60,6 +66,7 @@ class State:
         self.pc = []
         self.facts = []
         self.checks = []   # (label, formula) evaluated under pc at that point
+        self.lazy_checks = []   # obligations of code evaluated lazily while this state reads
         self.trace = []
 
     def clone(self):
@@ -154,6 +161,7 @@ class Executor:
         self.loop_specs = {}
         self.goal_mode = False
         self.cl_mode = False
+        self.polarity = 0                 # +1 while evaluating a goal in positive position
 
     # ------------------------------------------------------------------ statements
     def run_function(self, fdef, state, cls=None):
@@ -463,6 +471,18 @@ class Executor:
         if m is None:
             raise Unsupported(f'expression {type(node).__name__} at line '
                               f'{getattr(node, "lineno", "?")}')
+        if self.polarity:
+            # polarity of the position inside a goal (for skolemising positive quantifiers):
+            # kept through and/or, flipped by not / implies-antecedent, unknown elsewhere
+            pol = self.polarity
+            if isinstance(node, (ast.BoolOp, ast.Call)):
+                return m(node, st)
+            self.polarity = -pol if (isinstance(node, ast.UnaryOp)
+                                     and isinstance(node.op, ast.Not)) else 0
+            try:
+                return m(node, st)
+            finally:
+                self.polarity = pol
         return m(node, st)
 
     def eval1(self, node, st):
@@ -1213,11 +1233,13 @@ class Executor:
                 s2 = st.clone()
                 self.assign(gen.target, it.fn(i), s2)
                 v = self.eval1(node.elt, s2)
-                # obligations raised inside the element (callee preconditions) hold for all i
+                # obligations raised inside the element (callee preconditions) and the facts
+                # learned there (callee postconditions) belong to whoever reads element i
+                sink = SINK[-1] if SINK else st
                 for lab, hyps, f in s2.checks[len(st.checks):]:
-                    st.checks.append((lab, hyps, f))
+                    (sink.lazy_checks if SINK else sink.checks).append((lab, hyps, f))
                 for f in s2.facts[len(st.facts):]:
-                    st.facts.append(f)
+                    sink.facts.append(f)
                 return v
             return [(st, SSeq(it.length, fn, 'obj'))]
         raise Unsupported('comprehension over unsupported iterable')
@@ -1229,12 +1251,28 @@ class Executor:
         # evaluate callee
         fname = _dotted(node.func)
         if fname == 'implies' and len(node.args) == 2:
-            a = self.eval1(node.args[0], st)
+            pol = self.polarity
+            self.polarity = -pol
+            try:
+                a = self.eval1(node.args[0], st)
+            finally:
+                self.polarity = pol
             a = z3.simplify(to_bool(a))
             if z3.is_false(a):
                 return [(st, z3.BoolVal(True))]
             b = self.eval1(node.args[1], st)
             return [(st, z3.Implies(a, to_bool(b)))]
+        if self.polarity and fname != 'forall':
+            # any other function: its arguments are in unknown polarity
+            pol = self.polarity
+            self.polarity = 0
+            try:
+                return self._ex_Call(node, st, fname)
+            finally:
+                self.polarity = pol
+        return self._ex_Call(node, st, fname)
+
+    def _ex_Call(self, node, st, fname):
         if fname == 'ite' and len(node.args) == 3:
             a = z3.simplify(to_bool(self.eval1(node.args[0], st)))
             if z3.is_true(a):
@@ -1276,6 +1314,8 @@ class Executor:
         if isinstance(fv, tuple) and fv and fv[0] == 'bound':
             _, obj, meth = fv
             c = self.registry.lookup_method(obj.cls, meth)
+            if c.kind == 'staticmethod':
+                return self.apply_contract(c, list(args), kwargs, st)
             return self.apply_contract(c, [obj] + list(args), kwargs, st)
         if isinstance(fv, tuple) and fv and fv[0] == 'localdef':
             return self.call_local(fv[1], args, kwargs, st)
